@@ -36,12 +36,12 @@ grep -m2 -A1 '^VIOLATION' /dev/shm/seed-check.$$.log | cut -c1-300
 if [ -n "$SAVE" ]; then
   d=/verif/seeded/$SAVE; mkdir -p $d
   cp $dir/patch.diff $d/; [ -n "$demo" ] && cp $demo $d/demo_test.go; [ -f $dir/README.md ] && cp $dir/README.md $d/README.md
-  python3 - "$d" "$prop" "$res_clean" "$res_mut" "$suite" "$rc" "$oracle" "$NEEDS" <<'PY'
+  python3 - "$d" "${TARGET:-$prop}" "$res_clean" "$res_mut" "$suite" "$rc" "$oracle" "$NEEDS" <<'PY'
 import json,sys
 d,prop,clean,mut,suite,rc,oracle,needs=sys.argv[1:9]
 json.dump({"property":prop,"breaks":needs.split('||')[0] if needs else "","needs_to_manifest":needs.split('||')[1] if '||' in needs else "",
  "ran":["git worktree of /repo HEAD under /dev/shm","demo on the clean tree: go test -run <TestName> (result: %s)"%clean,"git apply patch.diff; demo again (result: %s)"%mut,
-        "full existing suite with the change: go test -vet=off -count=1 ./... (result: %s)"%suite,"VERIF_REPO=<worktree> ./check %s quick (exit %s, %s)"%(prop,rc,oracle)],
+        "full existing suite with the change: go test -vet=off -count=1 ./... (result: %s)"%suite,"VERIF_REPO=<worktree> ./check %s quick (exit %s, %s)"%(oracle.replace('oracle=','').split('.')[0] or prop,rc,oracle)],
  "demo_on_clean_tree":clean,"demo_with_change":mut,"existing_suite_with_change":suite,"check_exit":int(rc),"caught_by":oracle.replace('oracle=','')}, open(d+'/meta.json','w'), indent=1)
 PY
 fi
